@@ -6,13 +6,10 @@
 package main
 
 import (
-	"bufio"
 	"encoding/binary"
 	"fmt"
 	"os"
-	"os/exec"
 	"path/filepath"
-	"regexp"
 	"sort"
 	"strings"
 
@@ -481,145 +478,5 @@ func runC07(r *vh.Run) {
 			})
 		}
 	}
-	straceRun(r)
-}
-
-// ---------- strace on the production operation table ----------
-
-func straceChild(fontDir, fontFile string) {
-	if _, err := font.InstallTrueTypeFontResult(fontDir, fontFile); err != nil {
-		fmt.Fprintln(os.Stderr, err)
-		os.Exit(3)
-	}
-}
-
-var (
-	reOpen   = regexp.MustCompile(`openat\(AT_FDCWD[^,]*, "([^"]+)", ([A-Z_|]+)`)
-	reFd     = regexp.MustCompile(`^(write|fsync|fdatasync|fchmod|close)\(\d+<([^>]+)>`)
-	reRename = regexp.MustCompile(`renameat2?\(AT_FDCWD[^,]*, "([^"]+)", AT_FDCWD[^,]*, "([^"]+)"`)
-	reUnlink = regexp.MustCompile(`unlinkat\(AT_FDCWD[^,]*, "([^"]+)"`)
-)
-
-func straceRun(r *vh.Run) {
-	if _, err := exec.LookPath("strace"); err != nil {
-		r.Count("strace:unavailable")
-		return
-	}
-	self, err := os.Executable()
-	if err != nil {
-		r.Count("strace:unavailable")
-		return
-	}
-	for _, pre := range []bool{false, true} {
-		base := newBase()
-		F := filepath.Join(base, "1")
-		in := filepath.Join(base, "in.ttf")
-		wfile(in, patchedRoboto(fontName(0x10)), 0o644)
-		init := map[string]map[string][]byte{"1": {}}
-		old := map[string][]byte{}
-		if pre {
-			wfile(filepath.Join(F, fontName(0x10)+".gob"), oldTok(0x10), 0o644)
-			init["1"]["10"] = oldTok(0x10)
-			old["10"] = oldTok(0x10)
-		}
-		logf := filepath.Join(base, "strace.log")
-		cmd := exec.Command("strace", "-f", "-y", "-qq", "-s", "0", "-e", "signal=none",
-			"-e", "trace=openat,write,fsync,fdatasync,fchmod,close,renameat,renameat2,unlinkat", "-o", logf,
-			self, "--strace-child", F, in)
-		if out, err := cmd.CombinedOutput(); err != nil {
-			r.Count("strace:failed")
-			r.Sample(map[string]any{"strace_error": err.Error(), "out": string(out)})
-			return
-		}
-		f, err := os.Open(logf)
-		must(err)
-		var tr []mev
-		tmpNames := map[string]string{}
-		wrote := map[string]bool{}
-		mp := func(p string) mpath {
-			if n, ok := tmpNames[p]; ok {
-				return mpath{"1", n}
-			}
-			return mpath{"1", stripName(filepath.Base(p))}
-		}
-		sc := bufio.NewScanner(f)
-		sc.Buffer(make([]byte, 1<<20), 1<<20)
-		for sc.Scan() {
-			line := sc.Text()
-			if i := strings.IndexByte(line, ' '); i > 0 { // drop the pid column
-				line = strings.TrimSpace(line[i:])
-			}
-			if !strings.Contains(line, F) {
-				continue
-			}
-			switch {
-			case strings.HasPrefix(line, "openat("):
-				m := reOpen.FindStringSubmatch(line)
-				if m == nil || filepath.Dir(m[1]) != F {
-					continue
-				}
-				if strings.Contains(m[2], "O_CREAT") && strings.Contains(m[2], "O_EXCL") {
-					tmpNames[m[1]] = fmt.Sprintf("%x", 0x100+len(tmpNames)+1)
-					p := mp(m[1])
-					tr = append(tr, mev{op: "createtemp", p: p, q: p, res: "ok"})
-				}
-			case strings.HasPrefix(line, "renameat"):
-				if m := reRename.FindStringSubmatch(line); m != nil {
-					tr = append(tr, mev{op: "rename", p: mp(m[1]), q: mp(m[2]), res: "ok"})
-				}
-			case strings.HasPrefix(line, "unlinkat("):
-				if m := reUnlink.FindStringSubmatch(line); m != nil {
-					p := mp(m[1])
-					tr = append(tr, mev{op: "remove", p: p, q: p, res: "ok"})
-				}
-			default:
-				m := reFd.FindStringSubmatch(line)
-				if m == nil {
-					continue
-				}
-				path := m[2]
-				if path == F {
-					if m[1] == "fsync" || m[1] == "fdatasync" {
-						d := mpath{"1", ""}
-						tr = append(tr, mev{op: "syncdir", p: d, q: d, res: "ok"})
-					}
-					continue
-				}
-				if filepath.Dir(path) != F {
-					continue
-				}
-				p := mp(path)
-				switch m[1] {
-				case "write":
-					e := mev{op: "encode", p: p, q: p, res: "ok"}
-					if !wrote[path] { // the whole representation is attributed to the first write
-						e.data = newTok(0x10)
-						wrote[path] = true
-					}
-					tr = append(tr, e)
-				case "fsync", "fdatasync":
-					tr = append(tr, mev{op: "sync", p: p, q: p, res: "ok"})
-				case "fchmod":
-					tr = append(tr, mev{op: "chmod", p: p, q: p, res: "ok"})
-				case "close":
-					tr = append(tr, mev{op: "close", p: p, q: p, res: "ok"})
-				}
-			}
-		}
-		f.Close()
-		if len(tr) < 4 {
-			r.Count("strace:empty-trace")
-			r.Sample(map[string]any{"strace_trace": traceWire(tr)})
-			continue
-		}
-		var kinds []string
-		for _, e := range tr {
-			if len(kinds) == 0 || kinds[len(kinds)-1] != e.op {
-				kinds = append(kinds, e.op)
-			}
-		}
-		r.Sample(map[string]any{"strace_syscall_order": strings.Join(kinds, " ")})
-		judge(r, "strace-InstallTrueTypeFont", map[string]any{"pre": pre}, tr, init, old, map[string][]byte{"10": newTok(0x10)}, true, []string{"10"})
-		r.Count("class:strace")
-	}
+	straceC07(r)
 }
